@@ -255,6 +255,8 @@ func c01(c *Ctx) (*report.Result, error) {
 		}
 		res.RuleDoc["O1.16"] = "the confirmation that is translated is the target's overall one (same analysis as O4.17): recvAck hands the id table the received SyncReplicationState's own InclusiveLowWatermark"
 		checkAckWatermarkSource(c, res, "O1.16")
+		res.RuleDoc["O1.17"] = "the levels acknowledged are the ones the id table reported for this confirmation (same analysis as O5.11): recvAck does not edit the map returned by AggregateUpTo"
+		checkTranslationNotEdited(c, res, "O1.17")
 		res.RuleDoc["O1.15"] = "what is re-acknowledged for an idle source shard is only what the id table said the target confirmed: prevAckBySource is written only by recvAck, under the sender's mutex, with the (source shard, level) pair of AggregateUpTo's result, and Run creates it empty - recvAck's fallback branch acknowledges every remembered level again, without any further test, whenever an ack covers no new entry"
 		checkPrevAckWriters(c, res, "O1.15")
 		res.RuleDoc["O1.12"] = "a confirmation is filed under the target it came from (same analysis as O3.14): an ack forwarded under another target's shard overwrites that target's lower level in ackByTarget and the minimum rises above what it confirmed"
@@ -861,6 +863,8 @@ func c03(c *Ctx) (*report.Result, error) {
 	}
 	res.RuleDoc["O3.14"] = "a confirmation is filed under the target it came from: every RoutedAck built by a sender's recvAck (both branches, both sender types) carries TargetShard = that sender's own targetShardID - an ack filed under another shard creates an entry that no real ack updates and pins the aggregated minimum for ever"
 	checkRoutedAckTarget(c, res, "O3.14")
+	res.RuleDoc["O3.16"] = "a target that registers late can start: the watermark replay to it cannot block the registration it runs in (same analysis as O2.12) - the blocking DeliverMessagesToShardOwner is reached only when the target has no local channel, and the function's own sends are selects with a default arm; with more pending watermarks than the channel holds, a blocking replay parks the new sender before its loops start, the target never acknowledges and the source never sees its final watermark acknowledged"
+	checkReplayNeverBlocksRegistration(c, res, "O3.16")
 	res.RuleDoc["O3.15"] = "a re-established source stream keeps its ack channel: the receiver evicts its predecessor BEFORE it registers its own ack channel (same analysis as O8.3) - the eviction force-removes the shard's ack channel, so in the other order the new receiver deregisters itself and no acknowledgement ever reaches it"
 	if r8, err := Registry["C08"](c); err == nil && r8 != nil {
 		if n := importObligations(res, r8, "O3.15", func(o report.Obligation) bool {
